@@ -8,7 +8,7 @@ Observation is black-box:  exception => Rejected;  emitted text identical => Ign
 No dependency on harness.common or on /repo (pure data + string building)."""
 from __future__ import annotations
 
-CONTEXTS = ["Top", "Nested", "Func", "MainLoop"]
+CONTEXTS = ["Top", "Nested", "Func", "MainLoop", "AfterLoop"]
 
 HEADER = [
     "from Reduino.Communication import SerialMonitor",
@@ -95,6 +95,11 @@ KINDS = [
     ("while_stmt",        ["while x < 3:", "    x += 1"], ["x += 1"]),
     # documented host-side methods of SerialMonitor (README: connect(port), close()): still skipped silently
     ("serial_host_call",  ["mon.close()"], []),
+    # a `while True:` wherever it stands (column 0 before the end: the main loop, then sentinel B is unreachable; nested: an
+    # endless inner loop; AFTER the main loop: a second main loop Python never reaches), a plain try/except, a blank line
+    ("while_true_stmt",   ["while True:", "    mon.write(\"C\")"], ["mon.write(\"C\")"]),
+    ("try_except",        ["try:", "    mon.write(\"C\")", "except Exception:", "    mon.write(\"D\")"], ["mon.write(\"C\")"]),
+    ("blank_line",        ["", "   "], []),
 ]
 
 # reference lines that differ by context: since the repair "fix: reject statements the transpiler cannot translate
@@ -122,6 +127,10 @@ def build(kind, context, with_probe=True):
         body = ["def work():"] + _ind(core, 4) + ["work()"]
     elif context == "MainLoop":
         body = ["while True:"] + _ind(core, 4)
+    elif context == "AfterLoop":
+        # at column 0 AFTER the block of the main loop (Python never reaches it); the reference script ends with the
+        # main loop - with the probe removed nothing at all follows it
+        body = ["mon.write(\"A\")", "while True:", "    mon.write(\"B\")"] + (list(probe) if with_probe else [])
     else:
         raise ValueError(context)
     return "\n".join(HEADER + body) + "\n"
